@@ -208,10 +208,172 @@ def mutate_xml(rng, root, etree):
     return root, "none"
 
 
+# ------------------------------------------------------------------------------------------------- reading oracle
+def walk(c, f):
+    """apply f to every canonical object (dict with _class) in the tree"""
+    if isinstance(c, list):
+        for x in c:
+            walk(x, f)
+    elif isinstance(c, dict):
+        if "_class" in c:
+            f(c)
+        for v in c.values():
+            walk(v, f)
+
+
+def collect(canons, pred):
+    out = []
+    walk(canons, lambda c: out.append(c) if pred(c) else None)
+    return out
+
+
+BCP47_SHAPE = {"deu": "3-letter", "EN": "upper-case", "x-private": "private-use", "i-klingon": "grandfathered",
+               "zh-aaa-bbb-ccc": "extlang", "en-a-bbb-x-a-ccc": "extension", "qaa-Qaaa-QM-x-southern": "3-letter",
+               "de-1996": "variant", "sl-rozaj-biske": "variant", "hy-Latn-IT-arevela": "variant", "En-Us": "upper-case",
+               "art-lojban": "grandfathered", "abcd": "4-letter", "abcdefgh": "5-8-letter"}
+
+
+def variants(rng, canons):
+    """yield (knobs, (class, member, facet)) after mutating `canons` in place towards a spec-valid form the SDK's own
+    writer never emits; one variant per call site so that a failure is attributed to exactly one form"""
+    kind = rng.choice(["explicit:Submodel.kind", "explicit:SubmodelElementList.order_relevant", "name128", "langtag",
+                       "abstract-list", "literal", "key-abstract", "shuffle", "xml-ws", "xml-bool-num", "langtag",
+                       "literal", "name128", "xml-prefix"])
+    if kind.startswith("explicit:"):
+        cls, attr = kind[9:].split(".")
+        if collect(canons, lambda c: c["_class"] == cls):
+            return {"explicit_defaults_for": (cls, attr)}, (cls, c05_spec.schemas.MEMBER[attr], "explicit-default")
+    elif kind == "name128":
+        sets = [c["display_name"] for c in collect(canons, lambda c: c.get("display_name"))]
+        if sets:
+            ls = rng.choice(sets)
+            n = rng.choice([65, 100, 128])
+            ls["items"][0] = [ls["items"][0][0], ("n" * n)]
+            return {}, ("LangStringNameType", "text", "maxLength:65-128")
+    elif kind == "langtag":
+        sets = []
+        walk(canons, lambda c: sets.extend(v for v in c.values() if isinstance(v, dict) and "items" in v))
+        if sets:
+            ls = rng.choice(sets)
+            tag = rng.choice(sorted(BCP47_SHAPE))
+            if all(t.lower() != tag.lower() for t, _ in ls["items"]):
+                ls["items"][0] = [tag, ls["items"][0][1]]
+                ls["items"].sort()
+                return {}, ("AbstractLangString", "language", "bcp47:" + BCP47_SHAPE[tag])
+    elif kind == "abstract-list":
+        lists = collect(canons, lambda c: c["_class"] == "SubmodelElementList")
+        if lists:
+            sml = rng.choice(lists)
+            t = sml["type_value_list_element"]
+            opts = ["SubmodelElement"] + (["DataElement"] if t in c05_spec.schemas.DATA_ELEMENTS else []) + \
+                (["EventElement"] if t == "BasicEventElement" else [])
+            sml["type_value_list_element"] = rng.choice(opts)
+            return {}, ("SubmodelElementList", "typeValueListElement", "enum:abstract-class")
+    elif kind == "literal":
+        tags = set()
+
+        def f(c):
+            for v in c.values():
+                if isinstance(v, list) and v and isinstance(v[0], str) and v[0] in c05_spec.LITERAL_STYLES \
+                        and len(v) >= 2 and not isinstance(v[1], (list, dict)):
+                    tags.add(v[0])
+        walk(canons, f)
+        if tags:
+            tag = rng.choice(sorted(tags))
+            style = rng.choice(c05_spec.LITERAL_STYLES[tag])
+            return {"literal_style": {tag: style}}, ("ValueDataType", "value", f"lexical:{c05_spec.xsd_name(tag) if tag[0].isupper() or tag in c05_spec.XSD_NAME else 'xs:' + tag}:{style}")
+    elif kind == "key-abstract":
+        refs = collect(canons, lambda c: c["_class"] == "ExternalReference" and len(c["key"]) >= 3)
+        if refs:
+            r = rng.choice(refs)
+            r["key"][1]["type"] = rng.choice(["REFERABLE", "IDENTIFIABLE"])
+            return {}, ("Key", "type", "enum:abstract-key-type")
+    elif kind == "shuffle":
+        return {"shuffle": rng}, ("*", "*", "member-order")
+    elif kind == "xml-ws":
+        which = rng.choice(["xs:boolean", "xs:base64Binary"])
+        return {"xml_ws": which}, (which, "*", "whitespace-collapse")
+    elif kind == "xml-prefix":
+        return {"xml_prefix": rng.choice([None, "x", "ns0"])}, ("*", "*", "namespace-prefix")
+    elif kind == "xml-bool-num":
+        return {"xml_bool_num": True}, ("xs:boolean", "*", "numeric-literal")
+    return None, None
+
+
+def read_back(fmt, data):
+    if fmt == "json":
+        from basyx.aas.adapter.json import read_aas_json_file
+        return read_aas_json_file(io.StringIO(data), failsafe=False)
+    from basyx.aas.adapter.xml import read_aas_xml_file
+    return read_aas_xml_file(io.BytesIO(data), failsafe=False)
+
+
+def read_oracle(chk, judges, twin, t, rng, store, i):
+    """documents of the independent writer must be judged valid, be accepted by the strict readers and yield the
+    canonical form they were written from"""
+    base = [c05_spec.norm(aasgen.canon(o)) for o in store]
+    jobs = [(json.loads(json.dumps(base)), {}, None)]
+    for _ in range(3):
+        canons = json.loads(json.dumps(base))
+        knobs, vsig = variants(rng, canons)
+        if knobs is not None:
+            jobs.append((canons, knobs, vsig))
+    for canons, knobs, vsig in jobs:
+        canons = [c05_spec.norm(c) for c in canons]
+        exp = {c["id"]: c for c in canons}
+        for fmt in ("json", "xml"):
+            if vsig and ((fmt == "json" and vsig[2] in ("whitespace-collapse", "numeric-literal", "namespace-prefix"))
+                         or (fmt == "xml" and vsig[2] == "member-order")):
+                continue
+            iw = c05_spec.IndependentWriter(t, dict(knobs))
+            try:
+                if fmt == "json":
+                    d = iw.json_env(canons)
+                    data = json.dumps(d)
+                    valid = judges.json_valid(d)
+                    loc = twin.jdoc(d)[0][:3] if not valid else []
+                else:
+                    root = iw.xml_env(canons)
+                    data = judges.etree.tostring(root, xml_declaration=True, encoding="utf-8")
+                    valid = judges.xml_valid(judges.etree.fromstring(data))
+                    loc = judges.xml_errors() if not valid else []
+            except Exception as e:
+                chk.tie_broken("independent-writer", f"{fmt} {vsig}: {type(e).__name__}: {e}")
+                continue
+            label = "baseline" if vsig is None else vsig[2].split(":")[0]
+            chk.count(f"read:{fmt}:{label}")
+            chk.seen(("read", i, fmt, vsig, sorted(exp)))
+            if not valid:
+                chk.tie_broken("independent-writer-invalid", {"format": fmt, "variant": vsig, "errors": loc})
+                continue
+            try:
+                st2 = read_back(fmt, data)
+                got = c05_spec.canon_of_store(st2)
+                problem = aasgen.diff(exp, got)
+            except Exception as e:
+                problem = f"raised {type(e).__name__}: {str(e)[:200]}"
+                cause = e.__cause__
+                while cause is not None:
+                    problem += f" <- {type(cause).__name__}: {str(cause)[:120]}"
+                    cause = cause.__cause__
+            if problem:
+                if vsig:
+                    s = f"C05:read:{fmt}:{vsig[0]}:{vsig[1]}:{vsig[2]}"
+                else:
+                    path = problem.partition(": ")[0]
+                    attrs = [p.split("[")[0] for p in path.split("/") if p and not p.startswith("http")]
+                    s = f"C05:read:{fmt}:baseline:{'/'.join(attrs[-2:])}:{'raised' if problem.startswith('raised') else 'value'}"
+                text = data if isinstance(data, str) else data.decode("utf-8")
+                chk.fail(s, f"a schema-valid {fmt.upper()} document of the independent writer is not read back as written "
+                            f"({vsig or 'baseline'}): {problem}",
+                         {"format": fmt, "variant": list(vsig) if vsig else None, "problem": problem,
+                          "document": text[:30000]})
+
+
 # ------------------------------------------------------------------------------------------------- run
 def regenerate(chk):
     ok = True
-    for name in ("jsonrules", "xmlrules", "schemas"):
+    for name in ("jsonrules", "schemas"):
         try:
             mod = __import__(f"py2coq.{name}", fromlist=["regenerate"])
             chk.notes.append(mod.regenerate())
@@ -267,7 +429,7 @@ def write_oracle(chk, judges, twin, store, i, strings):
 def run(chk):
     rng = chk.rng
     quick = chk.tier == "quick"
-    n_store, n_jcases, n_xcases = (240, 260, 160) if quick else (3000, 2400, 1200)
+    n_store, n_jcases, n_xcases, n_read = (240, 260, 160, 150) if quick else (3000, 2400, 1200, 2000)
     gen_ok = regenerate(chk)
     if gen_ok:
         ok = chk.theorems("props.C05", THEOREMS, VO)
@@ -313,6 +475,20 @@ def run(chk):
         if strings == "plain":
             jdocs.append(out["json"])
             xdocs.append(out["xml"])
+
+    # ---------------------------------------------------------------- reading oracle (independent writer)
+    for i in range(n_read):
+        g = c05_spec.SpecGen(rng, strings=("plain", "json", "xml")[i % 3], depth=3)
+        try:
+            store = g.store(rng.randint(1, 2))
+        except Exception as e:
+            chk.tie_broken("generator", f"{type(e).__name__}: {e}")
+            continue
+        try:
+            read_oracle(chk, judges, twin, t, rng, store, i)
+        except Exception as e:
+            import traceback
+            chk.tie_broken("read-oracle", traceback.format_exc()[-1500:])
 
     # ---------------------------------------------------------------- tie C: Coq validators vs real validators
     jterms, jmeta = [], []
